@@ -83,9 +83,15 @@ func TestHarness(t *testing.T) {
 			emit(RunEp(t, c.Calls, FixedEpChooser(c.Choices), true))
 		}
 	case "ep-random":
-		for i := 0; i < job.N; i++ {
-			calls := GenEpCalls(r)
-			emit(RunEp(t, calls, RandomEpChooser(r, calls, job.Params["maxsteps"], job.Params["faultrate"]), true))
+		for i := job.Params["offset"]; i < job.N; i++ {
+			ri := rand.New(rand.NewSource(job.Seed*1000003 + int64(i)))
+			calls := GenEpCalls(ri)
+			fr := job.Params["faultrate"]
+			if i%3 == 0 {
+				fr = 0 // a third of the workloads is fault free
+			}
+			emit(map[string]any{"index": i})
+			emit(RunEp(t, calls, RandomEpChooser(ri, calls, job.Params["maxsteps"], fr), true))
 		}
 	default:
 		t.Fatalf("unknown family %q", job.Family)
